@@ -178,7 +178,7 @@ __CPROVER_ensures(SI_S->send_buf == 16 && SI_S->raw == (RAW)) \
 __CPROVER_ensures(LMQ_WF_SCALAR(&SI_S->recv_msgs) && SI_S->recv_msgs.lmq_len == 0 && (SI_S->recv_msgs.lmq_cap == 16 || (SI_S->recv_msgs.lmq_cap == 2 && SI_S->recv_msgs.lmq_alloc == 0))) \
 __CPROVER_ensures(!g_pollr && !g_pollw && g_poll_init_calls == OLD(g_poll_init_calls) + 2)
 #define SI_PRE \
-__CPROVER_requires(__CPROVER_is_fresh(arg, sizeof(bus0_sock)) && VP_NO_LOCK_HELD && g_pollr_addr == &SI_S->can_recv && g_pollw_addr == &SI_S->can_send) \
+__CPROVER_requires(arg == g_s && VP_NO_LOCK_HELD && g_pollr_addr == &SI_S->can_recv && g_pollw_addr == &SI_S->can_send) \
 __CPROVER_assigns(*SI_S, VP_PROTO_GHOST_LIST, g_poll_init_calls, g_msg_freed, g_msg_freed_at_j, g_free_calls, g_alloc_ok)
 static void bus0_sock_init(void *arg, nni_sock *ns)
 SI_PRE
